@@ -265,8 +265,11 @@ func (c10) Run(c *run.Ctx, phase, idx int) {
 			c.Tick()
 		}
 		var ferr error = mon.ErrInjected
-		if k%3 == 1 {
+		switch k % 4 {
+		case 1:
 			ferr = &mon.WrappedErr{Inner: mon.ErrInjected}
+		case 2:
+			ferr = mon.TimeoutErr{} // a write deadline: Timeout() is true
 		}
 		fw := &mon.RecordingWriter{FailAt: k, Err: ferr, ErrWhenFull: k == L}
 		var n int64
@@ -287,6 +290,19 @@ func (c10) Run(c *run.Ctx, phase, idx int) {
 			c.Violation("C10/error-replaced/"+T, fmt.Sprintf("WriteTo returned %v, not the writer's error", err), d())
 		case int(n) != fw.Accepted:
 			c.Violation("C10/count-failing-writer/"+T, fmt.Sprintf("writer accepted %d bytes, WriteTo returned n=%d", fw.Accepted, n), d())
+		}
+		if k%5 == 2 || k == L/2 {
+			// the connection is replaced and the same packet sent again: a
+			// whole frame again, whatever happened to the last attempt
+			gw := mon.NewWriter()
+			var n2 int64
+			var err2 error
+			pan2 := mon.Guard(func() { n2, err2 = pkt.WriteTo(gw) })
+			c.Eval(1)
+			if pan2 != nil || err2 != nil || int(n2) != len(frame) || !bytes.Equal(gw.Buf, frame) {
+				c.Violation("C10/write-after-failed-write/"+T, fmt.Sprintf("after a write that failed at byte %d (%v), writing the same packet to a good writer gave n=%d err=%v and %d bytes instead of the %d-byte frame", k, ferr, n2, err2, len(gw.Buf), len(frame)), d())
+				break
+			}
 		}
 		if len(fw.Buf) > 0 && !strings.HasPrefix(string(frame), string(fw.Buf)) {
 			c.Violation("C10/partial-differs/"+T, "bytes accepted by the failing writer are not a prefix of the frame", d())
